@@ -1,57 +1,38 @@
 /-
-  C17 (positive half): String then ParseURI is the identity on URIs with a registered-name / IPv4-literal host.
-  The negative half (known finding F8) is in Stun/Properties/C17.lean.
+  C17 (positive half): String then ParseURI is the identity on every URI whose host ParseURI can produce, except
+  the one host shape of known finding F8. The negative half (F8) is in Stun/Properties/C17.lean.
 -/
 import Stun.Proofs.URIRoundTrip
+import Stun.Properties.C17
 namespace Stun.C17
 open Stun Stun.URI
 
+/-- a byte that can occur in the host of an accepted URI: not '#', not a control byte (url.Parse rejects those or cuts
+    there), not '?' (the query starts there), not a bracket (net.SplitHostPort rejects those inside a host) -/
+def HostChar (b : UInt8) : Prop := Plain b ∧ b ≠ chr '?' ∧ b ≠ chr '[' ∧ b ≠ chr ']'
+instance : DecidablePred HostChar := fun b => by unfold HostChar; infer_instance
 
-/-! ### the round trip for registered-name hosts -/
-
-/-- URIs as `ParseURI` produces them for registered-name / IPv4 hosts: a non-empty host of letters, digits, '.', '-'
-    and '_', a port in range, and the transport the scheme implies when the scheme has no transport parameter -/
-structure RegNameURI (u : URI.URI) : Prop where
+/-- the hypotheses of the round trip: what `accepted_wellformed` guarantees of a parsed URI (non-empty host, port in
+    range, the transport the scheme implies when the scheme carries no transport parameter), host bytes that can
+    occur in an accepted host, and NOT the shape of known finding F8 (a host without ':' that begins with '/') -/
+structure RoundTripURI (u : URI.URI) : Prop where
   host_ne : u.host ≠ []
-  host_ok : ∀ b ∈ u.host, isRegChar b = true
+  host_ok : ∀ b ∈ u.host, HostChar b
+  not_f8 : chr ':' ∉ u.host → u.host.head? ≠ some (chr '/')
   port_lo : 0 ≤ u.port
   port_hi : u.port ≤ 65535
   stun_udp : u.scheme = .stun → u.proto = .udp
   stuns_tcp : u.scheme = .stuns → u.proto = .tcp
 
-/-- formatting a URI with a registered-name host and parsing the result yields the same URI: scheme, host, port and
-    transport all come back (for every host over the registered-name alphabet, every port, all four schemes, both
-    transports). The bracketed-host cases are decided by the correspondence predicate; the one host class that does
-    NOT round-trip is known finding F8 (`roundtrip_fails_on_slash_host`). -/
-theorem roundtrip_regname (u : URI.URI) (h : RegNameURI u) : parseURI true u.toStr = .ok u := by
-  obtain ⟨sch, host, port, proto⟩ := u
-  obtain ⟨hne, hok, hlo, hhi, hs1, hs2⟩ := h
-  simp only at hne hok hlo hhi hs1 hs2
-  have hnn : itoa port = itoaNat port.natAbs := by simp [itoa]; omega
-  obtain ⟨d1, _, d3, d4⟩ := itoaNat_spec port.natAbs
-  have hdig : ∀ b ∈ itoa port, isDigit b = true := by
-    rw [hnn]; intro b hb; exact List.all_eq_true.mp d1 b hb
-  -- shapes
-  have hnocolon : host.contains (chr ':') = false :=
-    contains_false_of_not_mem _ _ (fun hm => (regChar_props _ (hok _ hm)).2.2.2.1 rfl)
-  have hnomem : chr ':' ∉ host := fun hm => (regChar_props _ (hok _ hm)).2.2.2.1 rfl
-  have hopq : ∀ b ∈ host ++ chr ':' :: itoa port, Plain b ∧ b ≠ chr '?' := by
-    intro b hb
-    simp only [List.mem_append, List.mem_cons] at hb
-    rcases hb with hb | hb | hb
-    · have := regChar_props b (hok b hb); exact ⟨⟨this.1, this.2.2.2.2.2.2⟩, this.2.1⟩
-    · subst hb; exact ⟨⟨by decide, by decide⟩, by decide⟩
-    · have := digit_props b (hdig b hb); exact ⟨⟨this.1, this.2.2.2.2.2.2⟩, this.2.1⟩
-  have hhead : (host ++ chr ':' :: itoa port).head? ≠ some (chr '/') := by
-    cases host with
-    | nil => exact absurd rfl hne
-    | cons c r =>
-      have := (regChar_props c (hok c List.mem_cons_self)).2.2.1
-      simpa using this
-  have hsplit : splitHostPort (host ++ chr ':' :: itoa port) = .ok (host, itoa port) := by
-    apply splitHostPort_join
-    · intro b hb; have := regChar_props b (hok b hb); exact ⟨this.2.2.2.1, this.2.2.2.2.1, this.2.2.2.2.2.1⟩
-    · intro b hb; have := digit_props b (hdig b hb); exact ⟨this.2.2.2.1, this.2.2.2.2.1, this.2.2.2.2.2.1⟩
+/-- the common part: once `JoinHostPort host port` is known to be a string `opq` that url.Parse keeps as the opaque
+    part and that `SplitHostPort` splits back, the URI comes back -/
+theorem roundtrip_core (sch : Scheme) (host : Str) (port : Int) (proto : Proto) (opq : Str)
+    (hjoin : joinHostPort host (itoa port) = opq)
+    (hopq : ∀ b ∈ opq, Plain b ∧ b ≠ chr '?') (hopqne : opq ≠ []) (hhead : opq.head? ≠ some (chr '/'))
+    (hsplit : splitHostPort opq = .ok (host, itoa port))
+    (hne : host ≠ []) (hlo : 0 ≤ port) (hhi : port ≤ 65535)
+    (hs1 : sch = .stun → proto = .udp) (hs2 : sch = .stuns → proto = .tcp) :
+    parseURI true (URI.toStr ⟨sch, host, port, proto⟩) = .ok ⟨sch, host, port, proto⟩ := by
   have hatoi := atoi_itoa port hlo hhi
   have hhost : (host == []) = false := by cases host <;> simp_all
   have hrange : ¬ (port < 0 ∨ port > 65535) := by omega
@@ -62,41 +43,230 @@ theorem roundtrip_regname (u : URI.URI) (h : RegNameURI u) : parseURI true u.toS
     have hp : proto = .udp := hs1 rfl
     subst hp
     have hraw : (⟨.stun, host, port, .udp⟩ : URI.URI).toStr =
-        Scheme.stun.str ++ chr ':' :: ((host ++ chr ':' :: itoa port) ++ (if false then chr '?' :: [] else [])) := by
-      simp [URI.toStr, joinHostPort, hnomem]
-    rw [hraw, parseURI, urlParse_rootless .stun _ [] false hopq (by simp) hhead (by simp) (by simp) (by simp)]
+        Scheme.stun.str ++ chr ':' :: (opq ++ (if false then chr '?' :: [] else [])) := by
+      simp [URI.toStr, hjoin]
+    rw [hraw, parseURI, urlParse_rootless .stun _ [] false hopq hopqne hhead (by simp) (by simp) (by simp)]
     simp only [newSchemeType_str, hsplit, hhost, Bool.false_eq_true, if_false, hatoi, hrange, hpq]
     simp
   | stuns =>
     have hp : proto = .tcp := hs2 rfl
     subst hp
     have hraw : (⟨.stuns, host, port, .tcp⟩ : URI.URI).toStr =
-        Scheme.stuns.str ++ chr ':' :: ((host ++ chr ':' :: itoa port) ++ (if false then chr '?' :: [] else [])) := by
-      simp [URI.toStr, joinHostPort, hnomem]
-    rw [hraw, parseURI, urlParse_rootless .stuns _ [] false hopq (by simp) hhead (by simp) (by simp) (by simp)]
+        Scheme.stuns.str ++ chr ':' :: (opq ++ (if false then chr '?' :: [] else [])) := by
+      simp [URI.toStr, hjoin]
+    rw [hraw, parseURI, urlParse_rootless .stuns _ [] false hopq hopqne hhead (by simp) (by simp) (by simp)]
     simp only [newSchemeType_str, hsplit, hhost, Bool.false_eq_true, if_false, hatoi, hrange, hpq]
     simp
   | turn =>
     have hraw : (⟨.turn, host, port, proto⟩ : URI.URI).toStr =
-        Scheme.turn.str ++ chr ':' :: ((host ++ chr ':' :: itoa port) ++
-          (if true then chr '?' :: (lit "transport=" ++ proto.str) else [])) := by
-      simp [URI.toStr, joinHostPort, hnomem, hlitq]
-    rw [hraw, parseURI, urlParse_rootless .turn _ (lit "transport=" ++ proto.str) true hopq (by simp) hhead
+        Scheme.turn.str ++ chr ':' :: (opq ++ (if true then chr '?' :: (lit "transport=" ++ proto.str) else [])) := by
+      simp [URI.toStr, hjoin, hlitq]
+    rw [hraw, parseURI, urlParse_rootless .turn _ (lit "transport=" ++ proto.str) true hopq hopqne hhead
       (query_clean proto) (by intro _; cases proto <;> decide) (by simp)]
     simp only [newSchemeType_str, hsplit, hhost, Bool.false_eq_true, if_false, hatoi, hrange, parseProto_transport]
     simp
   | turns =>
     have hraw : (⟨.turns, host, port, proto⟩ : URI.URI).toStr =
-        Scheme.turns.str ++ chr ':' :: ((host ++ chr ':' :: itoa port) ++
-          (if true then chr '?' :: (lit "transport=" ++ proto.str) else [])) := by
-      simp [URI.toStr, joinHostPort, hnomem, hlitq]
-    rw [hraw, parseURI, urlParse_rootless .turns _ (lit "transport=" ++ proto.str) true hopq (by simp) hhead
+        Scheme.turns.str ++ chr ':' :: (opq ++ (if true then chr '?' :: (lit "transport=" ++ proto.str) else [])) := by
+      simp [URI.toStr, hjoin, hlitq]
+    rw [hraw, parseURI, urlParse_rootless .turns _ (lit "transport=" ++ proto.str) true hopq hopqne hhead
       (query_clean proto) (by intro _; cases proto <;> decide) (by simp)]
     simp only [newSchemeType_str, hsplit, hhost, Bool.false_eq_true, if_false, hatoi, hrange, parseProto_transport]
     simp
 
-/-- non-vacuity: a concrete URI meets the hypotheses -/
+/-- **C17, round trip.** Formatting a URI and parsing the result yields the same URI - scheme, host, port and
+    transport all come back - for every host over the bytes an accepted host can contain (registered names, IPv4
+    and IPv6 literals, zones, percent signs, ...), every port 0..65535, all four schemes and both transports, with the
+    single exception of the F8 shape (a host without ':' that begins with '/'), for which the statement is false
+    (`roundtrip_fails_on_slash_host`). Hosts with a ':' take the bracketed form. -/
+theorem roundtrip (u : URI.URI) (h : RoundTripURI u) : parseURI true u.toStr = .ok u := by
+  obtain ⟨sch, host, port, proto⟩ := u
+  obtain ⟨hne, hok, hf8, hlo, hhi, hs1, hs2⟩ := h
+  simp only at hne hok hf8 hlo hhi hs1 hs2
+  have hnn : itoa port = itoaNat port.natAbs := by simp [itoa]; omega
+  obtain ⟨d1, _, d3, _⟩ := itoaNat_spec port.natAbs
+  have hdig : ∀ b ∈ itoa port, isDigit b = true := by
+    rw [hnn]; intro b hb; exact List.all_eq_true.mp d1 b hb
+  have hdp : ∀ b ∈ itoa port, Plain b ∧ b ≠ chr '?' := by
+    intro b hb; have := digit_props b (hdig b hb); exact ⟨⟨this.1, this.2.2.2.2.2.2⟩, this.2.1⟩
+  have hdc : ∀ b ∈ itoa port, b ≠ chr ':' ∧ b ≠ chr '[' ∧ b ≠ chr ']' := by
+    intro b hb; have := digit_props b (hdig b hb); exact ⟨this.2.2.2.1, this.2.2.2.2.1, this.2.2.2.2.2.1⟩
+  by_cases hc : chr ':' ∈ host
+  · -- bracketed form
+    have hjoin : joinHostPort host (itoa port) = chr '[' :: (host ++ chr ']' :: chr ':' :: itoa port) := by
+      simp [joinHostPort, hc]
+    apply roundtrip_core sch host port proto _ hjoin _ (by simp) (by simp; decide) _ hne hlo hhi hs1 hs2
+    · intro b hb
+      simp only [List.mem_append, List.mem_cons] at hb
+      rcases hb with hb | hb | hb | hb | hb
+      · subst hb; exact ⟨⟨by decide, by decide⟩, by decide⟩
+      · exact ⟨(hok b hb).1, (hok b hb).2.1⟩
+      · subst hb; exact ⟨⟨by decide, by decide⟩, by decide⟩
+      · subst hb; exact ⟨⟨by decide, by decide⟩, by decide⟩
+      · exact hdp b hb
+    · exact splitHostPort_join_bracket host (itoa port) (fun b hb => ⟨(hok b hb).2.2.1, (hok b hb).2.2.2⟩) hdc
+  · -- plain form
+    have hjoin : joinHostPort host (itoa port) = host ++ chr ':' :: itoa port := by
+      simp [joinHostPort, hc]
+    apply roundtrip_core sch host port proto _ hjoin _ (by simp) _ _ hne hlo hhi hs1 hs2
+    · intro b hb
+      simp only [List.mem_append, List.mem_cons] at hb
+      rcases hb with hb | hb | hb
+      · exact ⟨(hok b hb).1, (hok b hb).2.1⟩
+      · subst hb; exact ⟨⟨by decide, by decide⟩, by decide⟩
+      · exact hdp b hb
+    · cases host with
+      | nil => exact absurd rfl hne
+      | cons c r => simpa using hf8 hc
+    · apply splitHostPort_join host (itoa port) _ hdc
+      intro b hb
+      exact ⟨fun e => hc (e ▸ hb), (hok b hb).2.2.1, (hok b hb).2.2.2⟩
+
+/-! ### corollary: registered-name / IPv4 hosts -/
+
+/-- URIs with a registered-name / IPv4 host: a non-empty host of letters, digits, '.', '-' and '_' -/
+structure RegNameURI (u : URI.URI) : Prop where
+  host_ne : u.host ≠ []
+  host_ok : ∀ b ∈ u.host, isRegChar b = true
+  port_lo : 0 ≤ u.port
+  port_hi : u.port ≤ 65535
+  stun_udp : u.scheme = .stun → u.proto = .udp
+  stuns_tcp : u.scheme = .stuns → u.proto = .tcp
+
+theorem roundtrip_regname (u : URI.URI) (h : RegNameURI u) : parseURI true u.toStr = .ok u := by
+  apply roundtrip u
+  refine ⟨h.host_ne, ?_, ?_, h.port_lo, h.port_hi, h.stun_udp, h.stuns_tcp⟩
+  · intro b hb
+    have := regChar_props b (h.host_ok b hb)
+    exact ⟨⟨this.1, this.2.2.2.2.2.2⟩, this.2.1, this.2.2.2.2.1, this.2.2.2.2.2.1⟩
+  · intro _
+    cases hh : u.host with
+    | nil => exact absurd hh h.host_ne
+    | cons c r =>
+      have := (regChar_props c (h.host_ok c (by rw [hh]; exact List.mem_cons_self))).2.2.1
+      simpa using this
+
+/-! ### non-vacuity: concrete URIs meet the hypotheses -/
+
 example : RegNameURI ⟨.turns, lit "turn.example.org", 5349, .udp⟩ :=
   ⟨by decide, by decide, by decide, by decide, (fun h => nomatch h), (fun h => nomatch h)⟩
+
+/-- an IPv6 literal with a zone: bracketed form -/
+example : RoundTripURI ⟨.stun, lit "fe80::1%eth0", 3478, .udp⟩ :=
+  ⟨by decide, by decide, by decide, by decide, by decide, (fun _ => rfl), (fun h => nomatch h)⟩
+
+/-- a host that begins with '/' but contains ':' is NOT the F8 shape: it round-trips (bracketed) -/
+example : RoundTripURI ⟨.turn, lit "/a:b", 1, .tcp⟩ :=
+  ⟨by decide, by decide, by decide, by decide, by decide, (fun h => nomatch h), (fun h => nomatch h)⟩
+
+/-! ### every accepted URI: the full statement minus F8 -/
+
+/-- an accepted URI's host is what `SplitHostPort` made of the opaque part `url.Parse` found in some string -/
+def ViaSplit (u : URI.URI) : Prop :=
+  ∃ raw scheme opq q p, urlParse raw = .rootless scheme opq q ∧ splitHostPort opq = .ok (u.host, p)
+
+theorem accepted_via_aux (raw : Str) (u : URI.URI) (h : parseURI false raw = .ok u) : ViaSplit u := by
+  rw [parseURI] at h
+  cases hu : urlParse raw with
+  | error => simp [hu] at h
+  | other s => simp only [hu] at h; cases hn : newSchemeType s <;> simp [hn] at h
+  | rootless scheme opq q =>
+    simp only [hu] at h
+    cases hs : newSchemeType scheme with
+    | none => simp [hs] at h
+    | some sch =>
+      simp only [hs] at h
+      cases hsp : splitHostPort opq with
+      | error e => cases e <;> simp [hsp] at h
+      | ok hp =>
+        obtain ⟨host, rawPort⟩ := hp
+        simp only [hsp] at h
+        by_cases hh : host == []
+        · simp [hh] at h
+        · simp only [hh, Bool.false_eq_true, if_false] at h
+          cases ha : atoi rawPort with
+          | none => simp [ha] at h
+          | some port =>
+            simp only [ha] at h
+            by_cases hr : port < 0 ∨ port > 65535
+            · simp [hr] at h
+            · simp only [hr, if_false] at h
+              cases sch with
+              | stun =>
+                simp only at h
+                split at h
+                · simp at h
+                · simp only [Except.ok.injEq] at h; subst h
+                  exact ⟨raw, scheme, opq, q, rawPort, hu, hsp⟩
+              | stuns =>
+                simp only at h
+                split at h
+                · simp at h
+                · simp only [Except.ok.injEq] at h; subst h
+                  exact ⟨raw, scheme, opq, q, rawPort, hu, hsp⟩
+              | turn =>
+                simp only at h
+                cases hp : parseProto q with
+                | error e => simp [hp] at h
+                | ok p =>
+                  simp only [hp, Except.ok.injEq] at h; subst h
+                  exact ⟨raw, scheme, opq, q, rawPort, hu, hsp⟩
+              | turns =>
+                simp only at h
+                cases hp : parseProto q with
+                | error e => simp [hp] at h
+                | ok p =>
+                  simp only [hp, Except.ok.injEq] at h; subst h
+                  exact ⟨raw, scheme, opq, q, rawPort, hu, hsp⟩
+
+theorem accepted_via (raw : Str) (u : URI.URI) (h : parseURI true raw = .ok u) : ViaSplit u := by
+  rw [parseURI] at h
+  cases hu : urlParse raw with
+  | error => simp [hu] at h
+  | other s => simp only [hu] at h; cases hn : newSchemeType s <;> simp [hn] at h
+  | rootless scheme opq q =>
+    simp only [hu] at h
+    cases hs : newSchemeType scheme with
+    | none => simp [hs] at h
+    | some sch =>
+      simp only [hs] at h
+      cases hsp : splitHostPort opq with
+      | error e =>
+        cases e with
+        | missingPort =>
+          simp only [hsp, if_true] at h
+          exact accepted_via_aux _ u h
+        | tooManyColons | missingBracket | unexpectedOpen | unexpectedClose => simp [hsp] at h
+      | ok hp =>
+        have : parseURI false raw = .ok u := by
+          rw [parseURI]; simp only [hu, hs, hsp]; simpa [hsp] using h
+        exact accepted_via_aux raw u this
+
+/-- every byte of an accepted URI's host is a `HostChar` -/
+theorem accepted_host_chars (raw : Str) (u : URI.URI) (h : parseURI true raw = .ok u) : ∀ b ∈ u.host, HostChar b := by
+  obtain ⟨raw', scheme, opq, q, p, hu, hsp⟩ := accepted_via raw u h
+  have hopq := urlParse_opq_chars raw' scheme opq q hu
+  obtain ⟨hsub, hbr⟩ := splitHostPort_host opq u.host p hsp
+  intro b hb
+  exact ⟨(hopq b (hsub b hb)).1, (hopq b (hsub b hb)).2, (hbr b hb).1, (hbr b hb).2⟩
+
+/-- **C17, round trip, full statement minus F8.** For every string `ParseURI` accepts, formatting the result and
+    parsing it again yields the same URI, unless the host has the F8 shape (no ':' and a leading '/'), which can only
+    come from a bracketed input such as `stun:[/a]` and for which the statement is false. -/
+theorem roundtrip_accepted (raw : Str) (u : URI.URI) (h : parseURI true raw = .ok u)
+    (hf8 : chr ':' ∉ u.host → u.host.head? ≠ some (chr '/')) : parseURI true u.toStr = .ok u := by
+  have wf := accepted_wellformed raw u h
+  exact roundtrip u ⟨wf.host, accepted_host_chars raw u h, hf8, wf.portLo, wf.portHi, wf.stunUdp, wf.stunsTcp⟩
+
+/-- the F8 exclusion is exactly the recorded finding: the refuted URI violates it -/
+example : ¬ (chr ':' ∉ (lit "/a") → (lit "/a").head? ≠ some (chr '/')) := by decide
+
+/-- idempotence: a URI that has been through String/ParseURI once is a fixed point -/
+theorem roundtrip_idempotent (raw : Str) (u : URI.URI) (h : parseURI true raw = .ok u)
+    (hf8 : chr ':' ∉ u.host → u.host.head? ≠ some (chr '/')) :
+    ∀ v, parseURI true u.toStr = .ok v → v.toStr = u.toStr := by
+  intro v hv
+  rw [roundtrip_accepted raw u h hf8] at hv
+  cases hv; rfl
 
 end Stun.C17
